@@ -116,6 +116,7 @@ type interp struct {
 	ufCount     int
 	onceDone    map[*value]bool
 	stubCalls   map[string]int
+	stubLog     []stubCallRec // per path: every by-name stub call with its arguments
 	jsonBinds   []jsonBind
 	harnessStubs map[string][]value
 	tickers     int
@@ -157,6 +158,7 @@ func (in *interp) resetPath() {
 	in.ufApps = map[string][]*ufApp{}
 	in.onceDone = map[*value]bool{}
 	in.stubCalls = map[string]int{}
+	in.stubLog = nil
 	in.jsonBinds = nil
 	in.harnessStubs = map[string][]value{}
 	in.tickers = 0
@@ -893,4 +895,9 @@ func (in *interp) panicMsg(v value) string {
 		return "panic of type " + x.t.String()
 	}
 	return fmt.Sprintf("panic %T", v)
+}
+
+type stubCallRec struct {
+	name string
+	args []value
 }
